@@ -105,6 +105,40 @@ def generate(rng, tier):
     return {'profile': ID, 'world': world, 'ops': ops, 'plan': plan, 'env': {'listing_seed': rng.randint(0, 99)}}
 
 
+N_SWEEPS_THOROUGH = 600
+SWEEP_RULE = ('for one doctest of a sampled world (want forms and flags as sampled): at every point, every exception kind of the '
+              'table -- other class, nominal class with another message, module-qualified class, from called code at depth 2, '
+              'empty / multi-line / ellipsis message -- and "does not raise" where the text expects an exception; one per variant')
+
+
+def sweep(rng, h):
+    base = generate(rng, 'thorough')
+    base['plan'] = []
+    base['ops'] = base['ops'][:1]
+    dt = base['ops'][0]['dt']
+    modname = base['world']['modules'][0]['name']
+    spec = dict((d, x) for d, x, m in W.iter_doctests(base['world']))[dt]
+    nominal = {}
+    for st in spec['steps']:
+        if st.get('exc'):
+            nominal[st['pts'][st.get('raise_at', 0)]] = st['exc']
+
+    def faults(p):
+        pid = p['pid']
+        fs = [{'kind': 'raise', 'exc': 'ValueError', 'msg': 'other ' + pid},
+              {'kind': 'raise', 'exc': 'LookupError', 'msg': ''},
+              {'kind': 'raise', 'exc': 'mod:%s.SimLocalError' % modname, 'msg': 'other: colon ' + pid, 'depth': 2},
+              {'kind': 'raise', 'exc': 'SimError', 'msg': 'xyz...' + pid},
+              {'kind': 'raise', 'exc': 'RuntimeError', 'msg': 'other\nmulti ' + pid}]
+        if pid in nominal:
+            fs.append({'kind': 'noraise'})
+            e = nominal[pid]
+            if not e['exc'].startswith('doc:'):
+                fs.append({'kind': 'raise', 'exc': e['exc'], 'msg': 'other ' + pid})
+        return fs
+    return [base] + common.single_fault_variants(base, dt, faults)
+
+
 def check(rec):
     meta = expect.build(rec)
     out = []
